@@ -20,7 +20,7 @@ Proof.
     rewrite <- E1, <- E2 in *.
     destruct s as [p ty [i|]| |x semi]; try reflexivity.
     + destruct (ev e i) as [[e1 r|e1 v]|]; cbn [bindF]; try reflexivity.
-      destruct (match p with PStruct _ _ _ => as_data e1 r | _ => as_val e1 r end); try reflexivity.
+      destruct (let_val e1 p i r); try reflexivity.
       destruct (bind_pat p v e1); try reflexivity. apply IH.
     + rewrite E1, E2. rewrite <- E1, <- E2. apply IH.
     + destruct (ev e x) as [[e1 r|e1 v]|]; cbn [bindF]; try reflexivity. rewrite E1, E2, <- E1, <- E2. apply IH.
@@ -28,3 +28,38 @@ Qed.
 
 Lemma loopN_S C k : loopN C (S k) = loop_step (eval C (loopN C k)).
 Proof. reflexivity. Qed.
+
+(* ---- a body that ends in an `if`: evaluate the condition, then step through the chosen branch ---- *)
+Lemma eval_if C c t el e :
+  evalC C e (EIf c t el) =
+  bindF (evalC C e c) (fun e r =>
+    match as_data e r with
+    | Some (VBoolV true) => run_block (evalC C) e t
+    | Some (VBoolV false) => run_block (evalC C) e el
+    | _ => None
+    end).
+Proof. reflexivity. Qed.
+
+Definition finish_block (o : option flow) : option flow :=
+  match o with
+  | Some (Norm e' r') => match as_val e' r' with Some v => Some (Norm e' (RV v)) | None => None end
+  | Some (Ret e' v) => Some (Ret e' v)
+  | None => None
+  end.
+
+Lemma run_last_if C e c t el :
+  run_stmts (evalC C) e [SExpr (EIf c t el) false] =
+  match evalC C e c with
+  | Some (Norm e1 r) =>
+      match as_data e1 r with
+      | Some (VBoolV b) => finish_block (run_block (evalC C) e1 (if b then t else el))
+      | _ => None
+      end
+  | Some (Ret e1 v) => Some (Ret e1 v)
+  | None => None
+  end.
+Proof.
+  cbn [run_stmts]. rewrite eval_if. destruct (evalC C e c) as [[e1 r|e1 v]|]; cbn [bindF]; try reflexivity.
+  destruct (as_data e1 r) as [v|]; try reflexivity. destruct v; try reflexivity.
+  destruct b; unfold finish_block; destruct (run_block (evalC C) e1 _) as [[e2 r2|e2 v2]|]; reflexivity.
+Qed.
